@@ -32,6 +32,8 @@ pub struct RunResult {
     pub state_vectors: Vec<u64>,
     pub log: Vec<String>,
     pub ticks: i64,
+    /// (operation index, sizes of the log writes of that invocation)
+    pub inv_db_writes: Vec<(usize, Vec<usize>)>,
 }
 
 thread_local! {
@@ -940,6 +942,12 @@ fn check_invocation(
             }
         }
     }
+    // ---- a record wider than the log format's 16-bit counts (S3): everything that follows is its consequence
+    if !v.is_empty() && sh.model.recs.iter().any(|r| r.deps.len() > 0xFFFF || r.outs.len() > 0x7FFF) {
+        let d = format!("a step was recorded with more than 65535 discovered dependencies or more than 32767 outputs; afterwards: {} {}", v[0].code, v[0].detail);
+        return vec![viol("C08", "oversize-record", d)];
+    }
+
     // ---- the same disagreement seen in a context another property speaks about
     let structural = ["respell_manifest", "add_step", "remove_step", "move_output", "add_output", "pool_depth"];
     let only_structural = !sh.model.edits_since_invoke.is_empty() && sh.model.edits_since_invoke.iter().all(|e| structural.contains(e));
@@ -1011,6 +1019,7 @@ pub fn run_scenario(sc: &Scenario, sandbox: &Sandbox, verbose: bool) -> RunResul
                     Outcome::Crash => "outcome.died",
                     Outcome::Panic(_) => "outcome.panic",
                 });
+                res.inv_db_writes.push((opi, s.ev.iter().filter_map(|e| if let Ev::DbWrite(n) = e { Some(*n) } else { None }).collect()));
                 let ncmd = s.ev.iter().filter(|e| matches!(e, Ev::Exec(_))).count();
                 res.commands += ncmd;
                 // event-trace hash (determinism) and distinct-trace key
